@@ -236,3 +236,15 @@ Qed.
 (* unknown types (GenericRdata) are the one-field schema [Remaining] *)
 Lemma generic_entry_ok : entry_ok (mk_ent 0 0 generic_codec) = true.
 Proof. reflexivity. Qed.
+
+(* ---------- which types may compress embedded names (RFC 3597 section 4) ---------- *)
+(* NS MD MF CNAME SOA MB MG MR PTR MINFO MX (RFC 1035) and, in dnspython, SRV and NAPTR - all of
+   them are down-cased in the DNSSEC canonical form, so case-insensitive compression keeps a
+   rendered record equal to the original.  The translator reports for every type whether its
+   writer hands the compression table to a name (name_compress) and how many such name writes
+   exist in classes that must not do so (helpers and hand-modelled codecs included). *)
+Definition may_compress : list Z := [2; 3; 4; 5; 6; 7; 8; 9; 12; 14; 15; 33; 35].
+
+Definition compress_ok (flags : list (Z * Z * bool)) (stray_sites : nat) : bool :=
+  forallb (fun x => let '(_, t, c) := x in negb c || existsb (Z.eqb t) may_compress) flags
+  && Nat.eqb stray_sites 0.
